@@ -15,6 +15,23 @@ pub const ALPHABET: [char; 28] = [
     'x', 'ｱ', 'ﾞ', '〜', '9',
 ];
 
+/// first characters that invite special treatment of the start of a text: byte order mark, zero-width space, no-break
+/// space, ideographic space, a combining mark, NUL, a 4-byte character
+pub const FIRST_CHARS: [char; 7] = ['\u{feff}', '\u{200b}', '\u{a0}', '\u{3000}', '\u{301}', '\u{0}', '😀'];
+
+/// one text in five gets one of FIRST_CHARS in front (sometimes twice, sometimes it is the whole text)
+pub fn special_first(rng: &mut Rng, s: String) -> String {
+    if !rng.chance(1, 5) {
+        return s;
+    }
+    let f = *rng.pick(&FIRST_CHARS);
+    match rng.below(8) {
+        0 => f.to_string(),
+        1 => format!("{}{}{}", f, f, s),
+        _ => format!("{}{}", f, s),
+    }
+}
+
 #[derive(Clone, Debug)]
 pub struct EditSpec {
     pub s: usize,
@@ -361,7 +378,12 @@ pub fn oracle(orig: &str, d: &Dump) -> Option<String> {
 type Shadow = Vec<(char, Option<usize>, bool)>;
 
 fn shadow_apply(sh: &Shadow, cur: &str, edits: &[EditSpec]) -> Shadow {
-    let offs: Vec<usize> = cur.char_indices().map(|(i, _)| i).collect();
+    let mut offs: Vec<usize> = cur.char_indices().map(|(i, _)| i).collect();
+    // an implementation whose working text is not the text it was given (fewer characters than the shadow) must end up as
+    // a reported failure of the oracles, not as a crash here: the missing positions count as lying behind every edit
+    while offs.len() < sh.len() {
+        offs.push(usize::MAX);
+    }
     let mut out: Shadow = vec![];
     let mut k = 0;
     for e in edits {
@@ -570,6 +592,27 @@ fn emit(sink: &mut Sink, orig: &str, batches: &[Vec<EditSpec>], out: &Outcome, v
     }
 }
 
+/// every special first character: alone and in front of ordinary text; untouched, with batches that leave the first
+/// character alone (it must keep mapping to itself and the start to the start), with an insertion in front of it, with
+/// the character itself replaced / deleted
+fn directed_first_chars() -> Vec<(String, Vec<Vec<(usize, usize, &'static str)>>)> {
+    let mut v = vec![];
+    for f in FIRST_CHARS {
+        let w = f.len_utf8();
+        v.push((f.to_string(), vec![]));
+        v.push((f.to_string(), vec![vec![]]));
+        v.push((format!("{}{}", f, f), vec![vec![(w, 2 * w, "")]]));
+        let t = format!("{}東京Ｔ", f);
+        v.push((t.clone(), vec![]));
+        v.push((t.clone(), vec![vec![(w + 6, w + 9, "t")]]));
+        v.push((t.clone(), vec![vec![(w + 3, w + 6, "")], vec![(w + 3, w + 6, "tt")], vec![(w, w + 3, "京都")]]));
+        v.push((t.clone(), vec![vec![(0, 0, "x")], vec![(1 + w + 6, 1 + w + 9, "")]]));
+        v.push((t.clone(), vec![vec![(0, w, "é")]]));
+        v.push((t, vec![vec![(0, w, ""), (w + 6, w + 9, "t")]]));
+    }
+    v
+}
+
 fn directed() -> Vec<(&'static str, Vec<Vec<(usize, usize, &'static str)>>)> {
     vec![
         // the unit tests of edit.rs
@@ -593,7 +636,7 @@ fn directed() -> Vec<(&'static str, Vec<Vec<(usize, usize, &'static str)>>)> {
 
 pub fn run(args: &Args) {
     let mut sink = Sink::new("C08", &args.out, &["Model.Buffer"], args.seed, &args.tier);
-    sink.rule("random originals (0..14 characters over an alphabet of 1/2/3/4-byte characters incl. the extremes of every width) x 1..4 successive batches of 1..4 ordered non-overlapping edits on character boundaries (delete / insert / shrink / expand / equal length; at start, middle, end; adjacent) through replace_ref/own/char/char_iter; every byte offset and every character index of the result is queried. Separate stream of malformed batches (unsorted, overlapping, reversed, off-boundary, out of range) compares Ok/Err/panic only. non-trivial = in scope, at least one edit, distinct Coq term. SESSION stream: one InputBuffer object reused for 1..3 texts (reset + new text), every text rewritten by 1..4 batches of which 2/5 are rejected by their closure after it recorded edits (with_editor answers Err); after every batch status, current() and the offset map are compared with the model and with a fresh reference buffer to which only the accepted batches are applied. PIPELINE stream (shared generators with C01): the real tokenizer on generated plugin stacks x dictionaries (display form != key, exact / prefix-only / other-length split declarations) x modes A/B/C x requested field subsets x on-demand split_into x reuse sessions; for every reported morpheme begin_c/end_c = code points of the original before begin/end, slice by code points = slice by bytes = surface");
+    sink.rule("random originals (0..14 characters over an alphabet of 1/2/3/4-byte characters incl. the extremes of every width; one in five with a special first character: U+FEFF, U+200B, U+00A0, U+3000, a combining mark, NUL, a 4-byte character; every run has directed cases with each of them alone and in front of text, untouched / edited behind it / inserted before it / replaced / deleted, also on a reused buffer and through the tokenizer with and without input-text plugins) x 1..4 successive batches of 1..4 ordered non-overlapping edits on character boundaries (delete / insert / shrink / expand / equal length; at start, middle, end; adjacent) through replace_ref/own/char/char_iter; every byte offset and every character index of the result is queried. Separate stream of malformed batches (unsorted, overlapping, reversed, off-boundary, out of range) compares Ok/Err/panic only. non-trivial = in scope, at least one edit, distinct Coq term. SESSION stream: one InputBuffer object reused for 1..3 texts (reset + new text), every text rewritten by 1..4 batches of which 2/5 are rejected by their closure after it recorded edits (with_editor answers Err); after every batch status, current() and the offset map are compared with the model and with a fresh reference buffer to which only the accepted batches are applied. PIPELINE stream (shared generators with C01): the real tokenizer on generated plugin stacks x dictionaries (display form != key, exact / prefix-only / other-length split declarations) x modes A/B/C x requested field subsets x on-demand split_into x reuse sessions; for every reported morpheme begin_c/end_c = code points of the original before begin/end, slice by code points = slice by bytes = surface");
     let grammar = test_grammar();
     if let Some(p) = &args.replay {
         if crate::c01::is_pipeline_case(p) {
@@ -662,6 +705,18 @@ pub fn run(args: &Args) {
         emit(&mut sink, orig, &batches, &out, false);
         sink.tag("directed");
     }
+    for (orig, bs) in directed_first_chars() {
+        for kind in [0u8, 1] {
+            let mut batches: Vec<Vec<EditSpec>> = bs
+                .iter()
+                .map(|b| b.iter().map(|(s, e, w)| EditSpec { s: *s, e: *e, w: w.to_string(), kind }).collect())
+                .collect();
+            let out = run_impl(&grammar, &orig, &mut batches, &mut |_, _| None);
+            emit(&mut sink, &orig, &batches, &out, false);
+            sink.tag("directed");
+            sink.tag("special_first_character");
+        }
+    }
     limits(&mut sink, false);
     let n = args.n(900, 20000);
     for _ in 0..n {
@@ -670,7 +725,7 @@ pub fn run(args: &Args) {
             if s.is_empty() && rng.chance(9, 10) {
                 s = rand_string(&mut rng, 6);
             }
-            s
+            special_first(&mut rng, s)
         };
         let nb = 1 + rng.below(4) as usize;
         let mut batches = vec![];
@@ -685,6 +740,7 @@ pub fn run(args: &Args) {
     let n = args.n(250, 4000);
     for _ in 0..n {
         let orig = rand_string(&mut rng, 8);
+        let orig = special_first(&mut rng, orig);
         let nb = 1 + rng.below(3) as usize;
         let bad_at = rng.below(nb as u64) as usize;
         let mut batches = vec![];
@@ -861,6 +917,20 @@ fn session_stream(sink: &mut Sink, rng: &mut Rng, n: usize) {
     ];
     run_session_case(sink, &mut directed, &mut None, false);
     sink.tag("directed");
+    // every special first character on a reused buffer: untouched text, a rejected batch, an accepted one behind the first character
+    for f in FIRST_CHARS {
+        let w = f.len_utf8();
+        let t = format!("{}東京Ｔ", f);
+        let mut phases = vec![
+            Phase { orig: "京都".into(), steps: vec![] },
+            Phase { orig: t.clone(), steps: vec![] },
+            Phase { orig: t.clone(), steps: vec![StepSpec { fails: true, edits: vec![EditSpec { s: 0, e: w, w: "".into(), kind: 0 }] }, StepSpec { fails: false, edits: vec![EditSpec { s: w + 6, e: w + 9, w: "t".into(), kind: 0 }] }] },
+            Phase { orig: f.to_string(), steps: vec![StepSpec { fails: false, edits: vec![] }] },
+        ];
+        run_session_case(sink, &mut phases, &mut None, false);
+        sink.tag("directed");
+        sink.tag("special_first_character");
+    }
     for _ in 0..n {
         let ntexts = 1 + rng.below(3) as usize;
         let mut phases: Vec<Phase> = (0..ntexts)
@@ -869,7 +939,7 @@ fn session_stream(sink: &mut Sink, rng: &mut Rng, n: usize) {
                 if s.is_empty() {
                     s = rand_string(rng, 5);
                 }
-                Phase { orig: s, steps: vec![] }
+                Phase { orig: special_first(rng, s), steps: vec![] }
             })
             .collect();
         let mut r2 = rng.fork();
